@@ -22,8 +22,8 @@ A write is rejected (``Reject``) when the value is negative or does not fit.
 Layout description (plain JSON data, produced by props/c11.py):
 
     {"endian": "big"|"little", "fuse": bool,
-     "regs": [{"name","uid","offset","width","hidden","init",      # init = value after construction / reset
-               "fields": [{"name"|None,"uid","off","width","shift","enums":[[name,int],...],"hidden"}]}],
+     "regs": [{"name","uid","offset","width","hidden","reset",     # reset = reset_value_int of the register
+               "fields": [{"name"|None,"uid","off","width","shift","enums":[[name,int,...],...],"reset"}]}],   # name None = unnamed gap
      "groups": [{"name","uid","subs":[indices into regs],"width","reversed","rev_order","alt":[...],"hexstring"}]}
 """
 from __future__ import annotations
